@@ -5,6 +5,7 @@
   integer day numbers `a ≤ b`, `c ≤ d` — no window, no sample.
 -/
 import Gedcom.Lemmas.Compare
+import Gedcom.Model.CompareSrc
 namespace Gedcom.C06
 open Gedcom
 
@@ -90,5 +91,60 @@ theorem compareDates_self (s e : Date) (h : s.firstDay ≤ e.lastDay) :
 example : compare 3 3 3 3 = .equal := by decide
 example : compare 3 20 20 20 = .outsideEnd ∧ compare 20 20 3 20 = .insideEnd := by decide
 example : compare 1 2 3 20 = .entirelyBefore ∧ (2:Int) < 3 := by decide
+
+/-! ## The decision logic is the source's
+
+`Generated/CompareSrc.lean` is read from date_range.go on every run with go/ast: the map literal
+`dateRangeCompareMatrix`, the cases of the switch in `compareDatesForLetter` in order, and the
+statements of `Compare`.  `CompareSrc.srcCompare` interprets them on whole-day numbers. -/
+
+/-- **Obligation on the regenerated source shape**: `Compare` consists of exactly the four
+    statements `srcCompare` mirrors, every case of the switch has a shape the interpretation
+    understands, and all three instants are truncated to whole days before they are compared. -/
+theorem compare_source_shape :
+    Generated.compareStatements =
+      ["start := compareDatesForLetter(dr.start, dr2.start, dr2.end)",
+       "end := compareDatesForLetter(dr.end, dr2.start, dr2.end)",
+       "if end == \"e\" && compareDatesForLetter(dr.end, dr2.end, dr2.end) == \"e\" { end = \"E\" }",
+       "return dateRangeCompareMatrix[start+end]"] ∧
+    CompareSrc.casesUnderstood Generated.letterCases = true ∧
+    Generated.letterTruncations = 3 := by decide
+
+theorem srcLetter_eq (v s e : Int) :
+    CompareSrc.srcLetter v s e = CompareSrc.letterName (letterOf v s e) := by
+  unfold CompareSrc.srcLetter letterOf
+  simp only [Generated.letterCases, Generated.letterDefault, List.find?, CompareSrc.caseHolds]
+  by_cases h1 : v = s
+  · have b1 : (v == s) = true := by simpa using h1
+    simp [h1, b1, CompareSrc.letterName]
+  · have b1 : (v == s) = false := by simpa using h1
+    by_cases h2 : v = e
+    · have b2 : (v == e) = true := by simpa using h2
+      simp [b1, b2, if_neg h1, if_pos h2, CompareSrc.letterName]
+    · have b2 : (v == e) = false := by simpa using h2
+      by_cases h3 : v < s
+      · simp [h1, h2, h3, b1, b2, CompareSrc.letterName]
+      · by_cases h4 : e < v
+        · simp [h1, h2, h3, h4, b1, b2, CompareSrc.letterName]
+        · simp [h1, h2, h3, h4, b1, b2, CompareSrc.letterName]
+
+theorem matrix_lookup (l1 l2 lf : Letter) :
+    Generated.matrixSrc.lookup (CompareSrc.letterName l1 ++
+      (if CompareSrc.letterName l2 == "e" && CompareSrc.letterName lf == "e" then "E"
+       else CompareSrc.letterName l2)) =
+    some (CompareSrc.relName (Generated.compareMatrix l1
+      (if l2 = .e ∧ lf = .e then .E else l2))) := by
+  cases l1 <;> cases l2 <;> cases lf <;> decide
+
+/-- **The model's `compare` is the source's decision logic.** For all day numbers, interpreting
+    the regenerated switch cases, fix-up statement and map literal gives the constant the model
+    computes — whose table `Generated.compareMatrix` is probed from the running code.  So the two
+    regenerated descriptions of `Compare` (behavioural probe and source translation) agree with
+    each other and with the model, on every input. -/
+theorem compare_is_the_source (a b c d : Int) :
+    CompareSrc.srcCompare a b c d = some (CompareSrc.relName (compare a b c d)) := by
+  unfold CompareSrc.srcCompare compare letterStart letterEnd
+  simp only [srcLetter_eq]
+  exact matrix_lookup (letterOf a c d) (letterOf b c d) (letterOf b d d)
 
 end Gedcom.C06
